@@ -112,3 +112,80 @@ def try_err_edges(ctx, body):
         if s[0] == "call" and s[1].endswith("::branch"):
             out[bb] = (vmap.get("Continue"), vmap.get("Break"), s[2][0] if s[2] else None)
     return out
+
+
+def ok_return_blocks(ctx, body):
+    """[(bb, stmt, payload_expr)] for every `_0 = Ok(payload)` assignment"""
+    R = ctx.res(body)
+    out = []
+    for bb, s in Q.ret_assignments(body):
+        if "rv" in s and s["rv"]["k"] == "agg" and norm(s["rv"]["name"]) == "std::result::Result" and s["rv"]["variant"] == "Ok":
+            out.append((bb, s, R.agg_op(bb, s, 0) if s["rv"]["ops"] else ("const", "()")))
+    return out
+
+
+def err_return_blocks(ctx, body):
+    out = []
+    for bb, s in Q.ret_assignments(body):
+        if "rv" in s and s["rv"]["k"] == "agg" and norm(s["rv"]["name"]) == "std::result::Result" and s["rv"]["variant"] == "Err":
+            out.append((bb, s))
+    return out
+
+
+def option_edges(ctx, body, pred):
+    """({(bb,label)} none_edges, {(bb,label)} some_edges) of Option switches whose scrutinee satisfies pred(expr)"""
+    ne, se = set(), set()
+    for x, t, scrut, adt, vmap in Q.enum_switches(ctx, body):
+        if adt != "std::option::Option":
+            continue
+        if pred(strip(scrut)):
+            if vmap.get("None") is not None:
+                ne.add((x, vmap["None"]))
+            if vmap.get("Some") is not None:
+                se.add((x, vmap["Some"]))
+    return ne, se
+
+
+def from_try_of(e, callee, bb=None):
+    """e is the Continue payload of `callee(..)?` (optionally the call in block bb)"""
+    e = strip(e)
+    if e[0] == "field" and e[2] == "0":
+        d = strip(e[1])
+        if d[0] == "downcast" and d[2] == "Continue":
+            c = strip(d[1])
+            if c[0] == "call" and c[1].endswith("::branch") and c[2]:
+                inner = strip(c[2][0])
+                return inner[0] == "call" and inner[1] == callee and (bb is None or inner[3] == bb)
+    return False
+
+
+def loop_no_early_exit(ctx, body, inside_bb, allow_edges=()):
+    """exits of the innermost loop containing inside_bb other than iterator exhaustion, `?` and allow_edges"""
+    cfg = ctx.cfg(body)
+    hdr = cfg.enclosing_loop_header(inside_bb)
+    if hdr is None:
+        return None
+    loop = cfg.natural_loop(hdr)
+    tries = try_err_edges(ctx, body)
+    es = {z[0]: z for z in Q.enum_switches(ctx, body)}
+    bad = []
+    for x in loop:
+        for y, lab in cfg.succ[x]:
+            if y in loop:
+                continue
+            if (body.blocks[y]["term"] or {}).get("k") == "unreachable":
+                continue
+            if (x, lab) in allow_edges:
+                continue
+            if x in tries and lab == tries[x][1]:
+                continue
+            z = es.get(x)
+            if z and z[3] == "std::option::Option" and z[4].get("None") == lab and strip(z[2])[0] == "call" and strip(z[2])[1].endswith("Iterator>::next"):
+                continue
+            bad.append((x, lab, y))
+    return bad
+
+
+def iter_source_calls(e):
+    """callee names inside the expression of an iterated element"""
+    return {c[1] for c in calls_in(e)}
